@@ -119,6 +119,12 @@ func (r *rapidContext) HandleInvoke(invoke *interop.Invoke, sbInfoFromInit inter
 	vhook.At("invoke.beforeHandlerMutex")
 	r.handlerExecutionMutex.Lock()
 	defer r.handlerExecutionMutex.Unlock()
+	if invoke.ID != "" && invoke.ID == r.resetInvokeID {
+		// This invocation has already been reset (e.g. it timed out while its dispatch was still waiting for the
+		// handler mutex): nobody waits for it any more, and handling it now would initialise an execution
+		// environment that no later reset knows about.
+		return interop.InvokeSuccess{}, &interop.InvokeFailure{ResetReceived: true}
+	}
 	// Clear the context used by the last invoke
 	r.appCtx.Delete(appctx.AppCtxInvokeErrorTraceDataKey)
 	return handleInvoke(r, invoke, sbInfoFromInit, requestBuffer, responseSender)
@@ -134,6 +140,11 @@ func (r *rapidContext) HandleReset(reset *interop.Reset) (interop.ResetSuccess, 
 	// Wait until invoke error handling has returned before continuing execution
 	r.handlerExecutionMutex.Lock()
 	defer r.handlerExecutionMutex.Unlock()
+
+	// Remember which invocation this reset ends, so that a dispatch of it that is still queued is not handled afterwards
+	if r.interopServer != nil {
+		r.resetInvokeID = r.interopServer.GetCurrentInvokeID()
+	}
 
 	// Clear the context used by the last invoke
 	r.appCtx.Delete(appctx.AppCtxInvokeErrorTraceDataKey)
